@@ -185,9 +185,12 @@ def CSim.onTxMsg (s : CSim) (line : Nat) (x : String) (m : Msg) : CSim :=
     | none => s
   | .ping => s
   | m =>
-    match sd.expectTx with
-    | e :: rest => if e == m then s.setSide x { sd with expectTx := rest } else
-        s.diff line s!"side {x}: expected automatic {msgToText e}, real sent {msgToText m}"
+    -- answers the dispatcher gives on its own (`handleRx` emissions) reach the wire through a spawned task
+    -- and the event queue, so messages caused by local calls may overtake them; at a quiescent point
+    -- none may be missing (`settled`)
+    if sd.expectTx.contains m then s.setSide x { sd with expectTx := sd.expectTx.erase m } else
+    match ([] : List Msg) with
+    | _ :: _ => s
     | [] =>
       match inferEvt sd.ep m with
       | none => s.diff line s!"side {x} sent {msgToText m}; no local event of the model explains it"
@@ -375,6 +378,13 @@ def stepLine (a : CAcc) (n : Nat) (line : String) : IO CAcc := do
       let st := s.stalled.filter (· != key)
       return { a with sim := { s with stalled := if v == "inf" then st else st ++ [key] } }
     else return { a with sim := s }
+  | "settled" :: _ =>
+    if s.teardown || !s.stalled.isEmpty then return { a with sim := s } else
+    let chk := fun (s : CSim) (x : String) =>
+      match (s.side x).run, (s.side x).expectTx with
+      | none, e :: _ => s.diff n s!"side {x}: the model's automatic answer {msgToText e} was not sent although the connection is quiescent"
+      | _, _ => s
+    return { a with sim := chk (chk s "A") "B" }
   | "listen" :: x :: rest =>
     -- quiescent point: every port-open request delivered to x and not answered yet must still be somewhere:
     -- waiting in the listener queue or held by the application (a request object or a call that owns one)
